@@ -359,17 +359,27 @@ class Check:
         return bool(t) and t[0] in self.cfg.get("header_tokens", [])
 
     def shrink(self, case, want):
-        """greedy one-op-at-a-time deletion, batched per round; `want` in (fail, disagree)"""
+        """delta debugging (ddmin on the removable op lines), batched: every round writes all candidates of
+        the current granularity into one file and runs the real code and the judge once. Bounded: at most
+        ~2M op lines per round, 40 rounds and 90 s, so a 27 000-line witness is still reduced by halves."""
         best = dict(case)
+        t_end = time.time() + self.cfg.get("shrink_budget_s", 90)
+        n_chunks = 2
         rounds = 0
-        while rounds < 40:
+        while rounds < 40 and time.time() < t_end:
             rounds += 1
             idxs = [i for i, o in enumerate(best["ops"]) if not self.is_header(o)]
             if len(idxs) <= 1:
                 break
+            n_chunks = min(n_chunks, len(idxs))
+            if n_chunks * len(best["ops"]) > 2_000_000:
+                break
+            size = (len(idxs) + n_chunks - 1) // n_chunks
+            chunks = [idxs[k:k + size] for k in range(0, len(idxs), size)]
             cands = []
-            for n, i in enumerate(idxs):
-                ops = best["ops"][:i] + best["ops"][i + 1:]
+            for n, ch in enumerate(chunks):
+                drop = set(ch)
+                ops = [o for i, o in enumerate(best["ops"]) if i not in drop]
                 cands.append({"id": f"s{n}", "family": best["family"], "ops": ops, "impl": []})
             p = os.path.join(self.rundir, "shrink.cases")
             write_cases(p, cands)
@@ -379,10 +389,13 @@ class Check:
                 if st == want:
                     hit = (c, why)
                     break
-            if hit is None:
+            if hit is not None:
+                best = {"id": case["id"], "family": case["family"], "ops": hit[0]["ops"], "impl": hit[0]["impl"], "why": hit[1]}
+                n_chunks = max(2, n_chunks - 1)
+            elif n_chunks >= len(idxs):
                 break
-            best = {"id": case["id"], "family": case["family"], "ops": hit[0]["ops"], "impl": hit[0]["impl"]}
-            best["why"] = hit[1]
+            else:
+                n_chunks = min(len(idxs), n_chunks * 2)
         return best
 
     # -- known findings -------------------------------------------------------------------------
